@@ -1268,6 +1268,16 @@ class SyncInterpreter(BaseInterpreter[TContext, TEvent]):
                 if not self._is_stale_notification(e, state)
             )
 
+        # 🤖 Stop child machines this state invoked. Only `after` timers were
+        #    cancelled here, so an invoked child actor kept running (with its
+        #    own timers and runner thread) after the invoking state was left,
+        #    until it happened to finish or the parent was stopped. The actor
+        #    id is the one `_invoke_service` hands to `_spawn_actor`.
+        for invocation in state.invoke:
+            child = self._actors.pop(f"{self.id}:{invocation.id}", None)
+            if child is not None:
+                child.stop()
+
         state_prefix = f"{state.id}::"  # our internal key scheme
         to_cancel = [
             k
